@@ -378,8 +378,13 @@ func runM4(run *vlib.Run) {
 			scs = append(scs, m4Scenario{Target: t, Point: "panic_in_shared_cache", Behaviour: pl})
 		}
 	}
-	run.Set("m4_scenarios", len(scs))
-	section(run, offM4, len(scs), 1, func(k int) {
+	bscs := batchScenarios()
+	run.Set("m4_scenarios", len(scs)+len(bscs))
+	section(run, offM4, len(scs)+len(bscs), 1, func(k int) {
+		if k >= len(scs) {
+			env.runBatchScenario(run, offM4+k, bscs[k-len(scs)])
+			return
+		}
 		if scs[k].Point == "panic_in_shared_cache" {
 			env.runPanicScenario(run, offM4+k, scs[k])
 			return
